@@ -358,6 +358,7 @@ impl Engine {
                 if h.is_none() {
                     self.cmd_spawns[cb] += 1;
                 }
+                self.cmd_counts[cb] += 1;
                 self.emit_c(&mut obs, 0, &[], out);
             }
             82 => {
@@ -366,12 +367,14 @@ impl Engine {
                 let k = r.next() as usize;
                 let ts = r.take(k);
                 dispatch_tuple(&ts, CmdRemoveV(&mut self.cmd[cb], h)).expect("tuple type not in catalogue");
+                self.cmd_counts[cb] += 1;
                 self.emit_c(&mut obs, 0, &[], out);
             }
             83 => {
                 let cb = r.next() as usize;
                 let h = self.href(r);
                 self.cmd[cb].despawn(h);
+                self.cmd_counts[cb] += 1;
                 self.emit_c(&mut obs, 0, &[], out);
             }
             84 => {
@@ -381,6 +384,8 @@ impl Engine {
                 }
                 let n = self.cmd_spawns[cb];
                 self.cmd_spawns[cb] = 0;
+                let ncmds = self.cmd_counts[cb];
+                self.cmd_counts[cb] = 0;
                 let mut before: std::collections::HashSet<u64> = self.worlds[w].as_ref().unwrap().iter().map(|e| e.entity().to_bits().into()).collect();
                 // reservations that the run flushes into real entities were not spawned by it
                 before.extend(self.shadow[w].reserved.iter().copied());
@@ -394,7 +399,7 @@ impl Engine {
                 spawned.sort();
                 match res {
                     Ok(()) => {
-                        self.resync_shadow(w);
+                        self.resync_shadow(w, ncmds > 0);
                         for b in &spawned {
                             let h = Entity::from_bits(*b).unwrap();
                             self.issue_pub(w, h, out);
@@ -420,12 +425,14 @@ impl Engine {
                 let cb = r.next() as usize;
                 self.cmd[cb].clear();
                 self.cmd_spawns[cb] = 0;
+                self.cmd_counts[cb] = 0;
                 self.emit_c(&mut obs, 0, &[], out);
             }
             86 => {
                 let cb = r.next() as usize;
                 self.cmd[cb] = CommandBuffer::new();
                 self.cmd_spawns[cb] = 0;
+                self.cmd_counts[cb] = 0;
                 self.emit_c(&mut obs, 0, &[], out);
             }
             _ => {}
@@ -459,14 +466,19 @@ impl Engine {
         items
     }
 
-    fn resync_shadow(&mut self, w: usize) {
+    fn resync_shadow(&mut self, w: usize, flushed: bool) {
         let world = self.worlds[w].as_ref().unwrap();
         let mut ents = std::collections::BTreeMap::new();
         for e in world.iter() {
             ents.insert(e.entity().to_bits().into(), self.read_entity(w, e.entity()).into_iter().collect());
         }
         // an empty buffer does not flush: reservations that are still outstanding stay reserved
-        self.shadow[w].reserved.retain(|b| !ents.contains_key(b));
+        if flushed {
+            // every recorded command flushes the world first
+            self.shadow[w].reserved.clear();
+        } else {
+            self.shadow[w].reserved.retain(|b| !ents.contains_key(b));
+        }
         self.shadow[w].ents = ents;
     }
 }
